@@ -6,6 +6,7 @@ package main
 
 import (
 	"fmt"
+	"sort"
 	"strings"
 
 	"verif/harness/hx"
@@ -31,6 +32,7 @@ type genState struct {
 	itSnap   map[int]int  // iid -> index into snaps of the last snapshot passed to Next (monotone)
 	gcPhase  int          // rough: 0 idle, 1 scanned
 	inits    map[string]bool
+	inits2   map[string]bool // names 4..7 of the aborted-registration pattern
 	nextInit int
 	qword    string
 }
@@ -465,6 +467,7 @@ func (g *genState) genCase(id string) {
 	g.snaps, g.nextSnap, g.nextIter = nil, 0, 0
 	g.iters, g.fresh, g.itSnap = map[int]int{}, map[int]bool{}, map[int]int{}
 	g.inits = map[string]bool{}
+	g.inits2 = map[string]bool{}
 	wantIters := g.weight(30, "C07 C08 C01 C02 C05", 3)
 	wantInit := g.weight(6, "C19", 10)
 	if r.Chance(g.weight(5, "C19 C06", 5)) {
@@ -663,9 +666,17 @@ func (g *genState) genCase(id string) {
 		} else {
 			g.emit("abort")
 			g.sh.abort()
-			// iterators created in the aborted transaction are not registered: drop them
+			// iterators created in the aborted transaction are not registered: drop them (closed, or just kept
+			// reachable and never used again: nothing of them may remain in the committed state either way)
+			var fr []int
 			for id := range g.fresh {
-				g.emit("close %d", id)
+				fr = append(fr, id)
+			}
+			sort.Ints(fr)
+			for _, id := range fr {
+				if r.Chance(50) {
+					g.emit("close %d", id)
+				}
 				delete(g.iters, id)
 			}
 			g.fresh = map[int]bool{}
@@ -694,6 +705,37 @@ func (g *genState) genCase(id string) {
 			g.snaps = append(g.snaps, g.nextSnap)
 			g.nextSnap++
 			g.emit("q fresh %s init", k[0])
+		}
+		if r.Chance(g.weight(3, "C19 C02 C01", 5)) {
+			// a table gets a pending initializer (committed), then a further one is registered in a multi-table
+			// transaction that aborts: the committed state, old snapshots and a later registration of the same name
+			// are as if it had never run
+			tb := r.Intn(2)
+			n1, n2 := fmt.Sprint(4+r.Intn(2)), fmt.Sprint(6+r.Intn(2))
+			if !g.inits2[fmt.Sprintf("%d/%s", tb, n1)] && !g.inits2[fmt.Sprintf("%d/%s", tb, n2)] {
+				g.emit("begin %d", tb)
+				g.emit("reginit %d %s", tb, n1)
+				g.emit("commit %d", g.nextSnap)
+				g.snaps = append(g.snaps, g.nextSnap)
+				g.nextSnap++
+				g.inits2[fmt.Sprintf("%d/%s", tb, n1)] = true
+				g.inits2[fmt.Sprintf("%d/%s", tb, n2)] = true
+				g.emit("begin 0,1")
+				g.emit("reginit %d %s", tb, n2)
+				g.emit("q txn %d init", tb)
+				g.emit("abort")
+				g.emit("q fresh %d init", tb)
+				if r.Chance(50) {
+					g.emit("begin %d", tb)
+					g.emit("reginit %d %s", tb, n2)
+					g.emit("initdone %d %s", tb, n2)
+					g.emit("initdone %d %s", tb, n1)
+					g.emit("commit %d", g.nextSnap)
+					g.snaps = append(g.snaps, g.nextSnap)
+					g.nextSnap++
+					g.emit("q fresh %d init", tb)
+				}
+			}
 		}
 		if r.Chance(g.weight(4, "C01 C02 C11", 4)) {
 			// a key that is a prefix of two others (plus a sibling, so that its node is not the root); a snapshot; then ONE
